@@ -24,6 +24,55 @@ EXPLANATION = (
 ASSUMPTIONS = ["nom tag/preceded/map/alt semantics", "str::trim* return sub-slices of their input (std)"]
 
 
+# Symbolic spellings of `USE <db>` after the 4-byte prefix, as token sequences:
+#   [ws] [`] NAME [`] [;] [ws]      (the property: name bare or backtick-quoted, optional trailing
+#   semicolon, optional whitespace before the name and after the statement)
+USE_SPELLINGS = [
+    (["w"] if w1 else []) + (["q"] if q else []) + ["N"] + (["q"] if q else []) + ([";"] if sc else []) + (["w"] if w2 else [])
+    for w1 in (0, 1) for q in (0, 1) for sc in (0, 1) for w2 in (0, 1)
+]
+_CH = {59: ";", 96: "q"}
+
+
+def _apply_trim(tokens, fn, carg):
+    t = list(tokens)
+    if fn in ("trim", "trim_start", "trim_end"):
+        if fn in ("trim", "trim_start"):
+            while t and t[0] == "w":
+                t.pop(0)
+        if fn in ("trim", "trim_end"):
+            while t and t[-1] == "w":
+                t.pop()
+        return t
+    if fn in ("trim_matches", "trim_start_matches", "trim_end_matches"):
+        c = _CH.get(carg)
+        if c is None:
+            return None
+        if fn in ("trim_matches", "trim_start_matches"):
+            while t and t[0] == c:
+                t.pop(0)
+        if fn in ("trim_matches", "trim_end_matches"):
+            while t and t[-1] == c:
+                t.pop()
+        return t
+    return None
+
+
+def use_normalisation(chain):
+    """Spellings for which the chain does not leave exactly the bare name (abstract evaluation of
+    the str::trim* calls on token sequences); an unmodelled call makes every spelling open."""
+    bad = []
+    for sp in USE_SPELLINGS:
+        t = sp
+        for fn, carg in chain:
+            t = _apply_trim(t, fn, carg)
+            if t is None:
+                return [("unmodelled", fn, carg)]
+        if t != ["N"]:
+            bad.append(("".join(sp), "".join(t)))
+    return bad
+
+
 def parse_table(prog, ctx):
     """[(tag_bytes, variant, inner)] extracted from the command parser."""
     pb = prog.one(r"^commands::parse$")
@@ -81,6 +130,7 @@ def run(ctx):
     ctx.rule("C02.arm-callbacks", "per command: which shim callbacks, how often; none in inner loops")
     ctx.rule("C02.verbatim", "shim string/id arguments are the command's payload/ids, unmodified")
     ctx.rule("C02.utf8", "only checked UTF-8 reaches the shim; invalid text returns an error")
+    ctx.rule("C02.use-normalisation", "the USE trimming chain maps every quantified spelling (16 token patterns) to the bare name")
     ctx.rule("C02.prefix-agreement", "slice start == length of the prefix tested; both spellings equally long")
 
     # ---- byte table ------------------------------------------------------------------------
@@ -214,7 +264,19 @@ def run(ctx):
                            "USE: the schema text starts at payload[%r..] but the prefix matched on this path is %r" % (off, succeeded[-1] if succeeded else None),
                            fn=fr.path, construct="prefix-slice", callee="USE", where=fr.where(bb),
                            sample={"rule": "prefix-agreement", "offset": repr(off), "prefix": repr(succeeded[-1]) if succeeded else None})
-                    ctx.ob("C02.verbatim", trims <= 3, "USE argument passes through %d trimming calls" % trims, fn=fr.path, construct="use-trims", nontrivial=False)
+                    # the trimming chain, applied to every spelling the property quantifies over, yields the bare name
+                    chain = []
+                    s1 = s
+                    while T.is_call(s1, r"str::<impl str>::\w+$"):
+                        nm = s1[1].split("::")[-1]
+                        carg = T.const_int(s1[2][1]) if len(s1[2]) > 1 else None
+                        chain.append((nm, carg))
+                        s1 = s1[2][0]
+                    chain.reverse()
+                    bad_sp = use_normalisation(chain)
+                    ctx.ob("C02.use-normalisation", bad_sp == [],
+                           "USE: the trimming chain %s leaves %s" % (chain, bad_sp[:3]), fn=fr.path, construct="trim-chain", callee="USE", where=fr.where(bb),
+                           sample={"rule": "use-normalisation", "chain": chain, "spellings_checked": len(USE_SPELLINGS)})
                 else:
                     ev_ok = vf is not None and (vf[0] == expected_variant or (isinstance(expected_variant, tuple) and vf[0] in expected_variant)) and vf[0] == arm \
                         and off == Aff(0) and ln is None and trims == 0
